@@ -46,6 +46,18 @@ PARENT_STEP_NR = {NR["pipe2"]: "pipe2", NR["pipe"]: "pipe2", NR["openat"]: "open
                   NR["fork"]: "fork", NR["clone"]: "fork", NR["vfork"]: "fork", NR["clone3"]: "fork",
                   NR["read"]: "sync-pipe-read", NR["fcntl"]: "sync-pipe-move"}
 STREAM = ("stdin", "stdout", "stderr")
+K_SPAWN_ENTER = 112
+# Calls that are never refused (and whose negative result is not a failed step): close (result ignored by design; a
+# suppressed close leaves the descriptor open, which only creates artificial hangs), exit/exit_group (cannot fail),
+# write (the child's 8-byte error record: exists only after another step has already failed = double fault),
+# wait4 (the parent's reaping in its error paths = double fault)
+NEVER_REFUSED = {NR["close"], NR["exit"], NR["exit_group"], NR["write"], NR["wait4"]}
+GEN_ERRNOS = ["EMFILE", "EACCES", "EIO", "ENOMEM", "EPERM", "EMAX"]
+
+
+def step_name(side, nr):
+    tab = PARENT_STEP_NR if side == "parent" else CHILD_STEP_NR
+    return tab.get(nr) or syslog.NAME.get(nr) or "sys%d" % nr
 
 # fault positions: step -> (scope, syscall nr, errnos tried first in quick, more errnos for thorough)
 # scope 0 = the calling thread (parent side); 3 = any process (child side: between arming and DISARM only the
@@ -556,6 +568,121 @@ def gen_injections(r, sh, helper, next_id, thorough):
     return out
 
 
+# ------------------------------------------------------------------------------------------------
+# discovered fault enumeration: (mode, side, call, occurrence) cells read from un-injected traced runs
+# ------------------------------------------------------------------------------------------------
+def mode_specs(seed, thorough):
+    """Parent/stdio modes whose spawn sequences are discovered and then refused call by call."""
+    m = []
+
+    def add(name, io=(None, None, None), closed=None, settings=False, bad=False, shared=None, rand=None):
+        m.append(dict(name=name, io=list(io), closed=closed, settings=settings, bad=bad, shared=shared, rand=rand))
+    add("inherit")
+    add("pipes", ("p", "p", "p"))
+    add("nulls", ("n", "n", "n"))
+    add("files", ("r", "w", "w"))
+    add("mixed+settings", ("p", "n", "w"), settings=True)
+    for sname in ("out+err-one-file", "err-to-own-stdout", "crossed-out-err", "own-identity", "in+out+err-one-file"):
+        add("shared:" + sname, shared=sname)
+    add("closed12-err-file", (None, None, "w"), closed=[1, 2])
+    add("closed12-out-err-files", (None, "w", "w"), closed=[1, 2])
+    add("closed2-out-pipe-err-file", (None, "p", "w"), closed=[2])
+    add("closed0-in-file-pipes", ("r", "p", "p"), closed=[0])
+    add("closed012-nulls", ("n", "n", "n"), closed=[0, 1, 2])
+    add("closed012-pipes", ("p", "p", "p"), closed=[0, 1, 2])
+    add("closed012-inherit+settings", closed=[0, 1, 2], settings=True)
+    add("closed012-files", ("r", "w", "w"), closed=[0, 1, 2])
+    add("closed1-out-pipe", (None, "p", None), closed=[1])
+    add("closed12-err-file-noprog", (None, None, "w"), closed=[1, 2], bad=True)
+    add("files-noprog+settings", ("r", "w", "w"), settings=True, bad=True)
+    if thorough:
+        for closed in ([0], [1], [2], [0, 1], [0, 2], [1, 2], [0, 1, 2]):
+            for io in (("p", "p", "p"), ("n", None, "w"), ("r", "w", None), (None, "n", "p")):
+                add("closed%s-%s" % ("".join(map(str, closed)), "".join(x or "-" for x in io)), io, closed=closed, settings=len(m) % 2 == 0)
+        for i in range(40):
+            add("random%d" % i, rand=i)
+    return m
+
+
+def make_mode(spec, sh, helper, cid):
+    """The configuration of a mode; calling it again (other id / directory) gives a structurally identical one."""
+    r = vlib.rng(SEED[0], "mode", spec["name"])
+    if spec["rand"] is not None:
+        c = gen_config(r, sh, helper, cid)
+        c["trywait"] = c["holdstdin"] = False
+    else:
+        c = gen_config(r, sh, helper, cid, light=True)
+        c["shared"] = None
+        c["io"] = list(spec["io"])
+        c["uid"] = c["gid"] = c["pg"] = c["cwd"] = None
+        c["pre"], c["wait2"], c["trywait"], c["holdstdin"] = 0, False, False, False
+        if c["bin"].startswith(b"./"):
+            c["bin"] = os.path.join(sh.bdir, c["bin"][2:])
+        if spec["settings"]:
+            c["cwd"], c["uid"], c["gid"], c["pg"], c["pre"] = os.path.join(sh.bdir, b"cwd-a"), 0, 54321, 0, 2
+        if spec["shared"]:
+            apply_shared_stdio(c, spec["shared"])
+        c["closed"] = list(spec["closed"]) if spec["closed"] else None
+        if spec["bad"]:
+            c["kind"], c["helper"] = "real", False
+            c["bin"] = os.path.join(sh.bdir, b"does-not-exist")
+    c["payload"] = b"mode payload " + spec["name"].encode()
+    c["mode"] = spec["name"]
+    c["note"] = "mode " + spec["name"]
+    return c
+
+
+def discover_cells(co, cid, P):
+    """From an un-injected run: every system call the caller makes inside Command::spawn and every call the forked child
+    makes up to and including execve, as (side, nr, occurrence, scope, k) in program order, up to the first call that
+    fails by itself (what follows would be a double fault)."""
+    ent = [e.seq for e in co.pev if e.k == "M" and e.kind == 3 and e.a[0] == K_SPAWN_ENTER and e.a[1] == cid]
+    ret = [e.seq for e in co.pev if e.k == "M" and e.kind == 3 and e.a[0] == K_RETURNED and e.a[1] == cid]
+    if not ent or not ret:
+        return None
+    enter, rets = ent[0], ret[0]
+    dis = [e.seq for e in co.pev if e.k == "M" and e.kind == 7 and e.seq > rets]
+    disarm = dis[0] if dis else rets
+    forks = sorted(ch["fork_seq"] for ch in co.children.values() if enter < ch["fork_seq"] < rets)
+    fork_seq = forks[0] if forks else None
+    par = [e for e in co.pev if e.k == "S" and enter < e.seq < rets]
+    par_all = [e for e in co.pev if e.k == "S" and enter < e.seq < disarm]
+    pre = [e for e in par if fork_seq is None or e.seq < fork_seq or e.nr in (NR["fork"], NR["clone"], NR["vfork"], NR["clone3"])]
+    post = [e for e in par if e not in pre]
+    child = []
+    for pid, ch in co.children.items():
+        if fork_seq is not None and ch["fork_seq"] == fork_seq:
+            seen_exec = False
+            for e in ch["ev"]:
+                if e.k != "S" or seen_exec:
+                    continue
+                child.append(e)
+                if e.nr == NR["execve"]:
+                    seen_exec = e.ret == 0
+                    if e.ret == 0:
+                        break
+    cells = []
+    occ = {}
+    for side, evs in (("parent", pre), ("child", child), ("parent", post)):
+        for e in evs:
+            if e.nr in NEVER_REFUSED:
+                continue
+            if e.ret < 0 and not (e.nr == NR["read"] and e.ret == -4):
+                return cells        # the mode fails here by itself
+            k = occ.get((side, e.nr), 0)
+            occ[(side, e.nr)] = k + 1
+            if side == "parent":
+                cells.append((side, e.nr, k, 0, k))
+            else:
+                p_pre = sum(1 for x in par_all if x.nr == e.nr and fork_seq is not None and x.seq < fork_seq)
+                p_post = sum(1 for x in par_all if x.nr == e.nr and fork_seq is not None and x.seq > fork_seq)
+                if p_post == 0:
+                    cells.append((side, e.nr, k, 3, p_pre + k))    # nobody else issues this call until DISARM: scope "all"
+                else:
+                    cells.append((side, e.nr, k, 2, k))            # scope "children of the caller"
+    return cells
+
+
 def gen_chains(r, sh, helper, next_id, n):
     """One Command value spawned 2-3 times, with and without further builder calls in between."""
     out = []
@@ -1008,9 +1135,10 @@ class Judge:
 
         # ---- steps that failed, from the system-call stream ----------------------------------------
         fails = []   # (seq, side, step, detail, errno, injected)
+        enter_seq = min([e.seq for e in co.pev if e.k == "M" and e.kind == 3 and e.a[0] == K_SPAWN_ENTER and e.a[1] == cid] or [co.begin or 0])
         for e in co.pev:
-            if e.k == "S" and e.seq < ret_seq and e.nr in PARENT_STEP_NR and e.ret < 0:
-                fails.append((e.seq, "parent", PARENT_STEP_NR[e.nr], "", -e.ret, e.inj))
+            if e.k == "S" and enter_seq < e.seq < ret_seq and e.ret < 0 and e.nr not in NEVER_REFUSED:
+                fails.append((e.seq, "parent", step_name("parent", e.nr), "", -e.ret, e.inj))
         kids = [(pid, ch) for pid, ch in co.children.items() if ch["fork_seq"] < ret_seq]
         if any(ch.get("early") for _, ch in kids):
             ck.count("child_seen_by_tracer_before_fork_event")
@@ -1019,8 +1147,8 @@ class Judge:
             for e in ch["ev"]:
                 if ch["exec_seq"] is not None and e.seq > ch["exec_seq"]:
                     break
-                if e.k == "S" and e.nr in CHILD_STEP_NR:
-                    step = CHILD_STEP_NR[e.nr]
+                if e.k == "S" and e.nr not in NEVER_REFUSED:
+                    step = step_name("child", e.nr)
                     det = ""
                     if step == "dup2":
                         tgt = syslog.s64(e.args[1])
@@ -1082,6 +1210,16 @@ class Judge:
 
         # ---- the caller was told Err ------------------------------------------------------------------
         if kind != 1:
+            for pid, ch in kids:
+                cert = getattr(self.sh, "certs", {}).get(pid)
+                if cert is not None and cert["complete"] and first is not None:
+                    lab = "exec-error" if first[2] == "execve" else first[2]
+                    self.viol("C13/%s/error-path-deadlock-stdin-pipe-held" % lab, c, co,
+                              "after %s failed with errno %d the caller never gets its error: it is parked in wait4(%d) for the program "
+                              "it started, that program is parked in read(0), and every write end of its stdin pipe %s is held by the "
+                              "caller (the error path waits for the child before dropping the Child's pipes); the child was killed to "
+                              "contain the hang" % (first[2], first[4], pid, cert.get("child_fd0")), certificate=cert)
+                    return "judged"
             # nobody may be left running the caller's code: every forked child has exec'd or is gone
             for pid, ch in kids:
                 if ch["exec_seq"] is None and (ch["exit"] is None or ch.get("exit_seq", 1 << 62) > ret_seq):
@@ -1523,6 +1661,16 @@ def _run(ck, quick, sysmon, helper_src, flavours, root, replay):
                 sh.probe_env = probe_env_for(r)
                 sh.cases += gen(r, sh, helper_b, next_id, reps)
                 shards.append(sh)
+            # discovery: every mode once, un-injected; phase 2 refuses each call these runs show
+            specs = mode_specs(ck.seed, (not quick) and heavy)
+            for i in range(0, len(specs), 30):
+                sh = Shard(root, fl, idx)
+                idx += 1
+                sh.probe_env = probe_env_for(r)
+                sh.discovery = specs[i:i + 30]
+                sh.cases += [make_mode(sp, sh, helper_b, next_id()) for sp in sh.discovery]
+                shards.append(sh)
+            fl["next_idx"] = idx + 100
             first = Shard(root, fl, idx)
             idx += 1
             first.probe_env = probe_env_for(r)
@@ -1548,14 +1696,65 @@ def _run(ck, quick, sysmon, helper_src, flavours, root, replay):
     timeout_s = 45 if quick else 600
     with concurrent.futures.ThreadPoolExecutor(max_workers=vlib.NCPU) as ex:
         list(ex.map(lambda s: run_shard(s, sysmon, timeout_s), shards))
+    for sh in shards:
+        sh.evs = syslog.parse(sh.log) if os.path.exists(sh.log) else []
+        sh.dg = digest(sh.evs)
+
+    # ---- phase 2: refuse every discovered (mode, side, call, occurrence) in turn ------------------------------
+    cells_total = 0
+    cell_keys = set()
+    phase2 = []
+    if not replay:
+        for sh in shards:
+            specs = getattr(sh, "discovery", None)
+            if not specs:
+                continue
+            base, cases, rootpid, root_exit = sh.dg
+            fl = sh.flavour
+            heavy = fl["name"] in ("std-nostart", "nolibc-start")
+            nerr = 1 if quick or not heavy else 3
+            todo = []
+            for sp, c in zip(specs, sh.cases):
+                co = cases.get(c["id"])
+                cells = discover_cells(co, c["id"], rootpid) if (co is not None and rootpid is not None) else None
+                if cells is None:
+                    ck.note_inconclusive("%s: mode %s: no complete un-injected run to discover its calls from" % (fl["name"], sp["name"]))
+                    continue
+                for ci, (side, nr, occ, scope, k) in enumerate(cells):
+                    cells_total += 1
+                    cell_keys.add("%s/%s/%s#%d" % (sp["name"], side, step_name(side, nr), occ))
+                    for j in range(nerr):
+                        en = GEN_ERRNOS[(ci + j + len(sp["name"])) % len(GEN_ERRNOS)]
+                        todo.append((sp, side, nr, occ, scope, k, en))
+            for i in range(0, len(todo), 60):
+                sh2 = Shard(root, fl, fl["next_idx"])
+                fl["next_idx"] += 1
+                sh2.probe_env = sh.probe_env
+                for sp, side, nr, occ, scope, k, en in todo[i:i + 60]:
+                    c = make_mode(sp, sh2, helper_b, next_id())
+                    c["kind"] = "inject"
+                    c["inj"] = [(scope, nr, k, -ERRNO[en], 1)]
+                    c["fault"] = (step_name(side, nr), occ, ERRNO[en])
+                    c["cell"] = "%s/%s/%s#%d" % (sp["name"], side, step_name(side, nr), occ)
+                    c["note"] = "mode %s: refuse %s %s#%d with %s" % (sp["name"], side, step_name(side, nr), occ, en)
+                    materialize(c, sh2)
+                    sh2.cases.append(c)
+                phase2.append(sh2)
+        with concurrent.futures.ThreadPoolExecutor(max_workers=vlib.NCPU) as ex:
+            list(ex.map(lambda s: run_shard(s, sysmon, timeout_s), phase2))
+        for sh in phase2:
+            sh.evs = syslog.parse(sh.log) if os.path.exists(sh.log) else []
+            sh.dg = digest(sh.evs)
+        shards += phase2
 
     nproc = 0
+    cells_judged = set()
     for sh in shards:
         tag = "%s-%d" % (sh.flavour["name"], sh.idx)
         if sh.timed_out or sh.rc in (124, 125) or sh.rc is None:
             ck.note_inconclusive("%s: sysmon rc=%s (watchdog/timeout), stderr %r" % (tag, sh.rc, sh.err[-300:]))
-        evs = syslog.parse(sh.log) if os.path.exists(sh.log) else []
-        base, cases, rootpid, root_exit = digest(evs)
+        evs = sh.evs
+        base, cases, rootpid, root_exit = sh.dg
         nproc += sum(1 for e in evs if e.k == "F")
         if rootpid is None:
             ck.note_inconclusive("%s: probe never started (rc=%s, stderr %r)" % (tag, sh.rc, sh.err[-300:]))
@@ -1575,6 +1774,9 @@ def _run(ck, quick, sysmon, helper_src, flavours, root, replay):
                 ck.count("cases/%s/%s" % (sh.flavour["name"], c["kind"]))
                 if c["fault"]:
                     ck.count("fault_positions_exercised/%s" % c["fault"][0])
+                if c.get("cell"):
+                    cells_judged.add(sh.flavour["name"] + "/" + c["cell"])
+                    ck.note_distinct("%s/cell/%s" % (sh.flavour["name"], c["cell"]))
             elif res == "incomplete":
                 incomplete += 1
                 returned = any(e.k == "M" and e.kind == 3 and e.a[0] == K_RETURNED and e.tgid == rootpid for e in co.order)
@@ -1586,6 +1788,11 @@ def _run(ck, quick, sysmon, helper_src, flavours, root, replay):
                            stderr_tail=sh.err[-1500:].decode("utf-8", "replace"))
         if incomplete:
             ck.note_inconclusive("%s: %d of %d cases without a complete observation (probe rc=%s)" % (tag, incomplete, len(sh.cases), sh.rc))
+        sh.evs = None
+    ck.count("discovered_cells", cells_total)
+    ck.count("discovered_cells_judged", len(cells_judged))
+    ck.extra["discovered_cell_sample"] = sorted(cell_keys)[:60]
+    ck.extra["never_refused_calls"] = sorted(syslog.NAME.get(n, n) for n in NEVER_REFUSED)
     ck.count("processes_forked_observed", nproc)
     ck.count("probe_processes", len(shards))
     if ck.counters.get("injection_not_reached", 0) > 0:
@@ -1600,14 +1807,21 @@ def _run(ck, quick, sysmon, helper_src, flavours, root, replay):
     ck.assume("expected errno of a failed step = the result of the first failing system call of the spawn sequence as seen by the tracer "
               "(injected or real); EINTR on the sync-pipe read and EBUSY on dup may be retried")
     ck.assume("wait() is accepted when it reports the child's raw wait status or its exit code, as long as the helper's exit code is recoverable")
-    ck.assume("runs as root: setuid/setgid to 65534/12345 succeed; child-side faults are injected with scope 'all' between arming and DISARM")
+    ck.assume("runs as root: setuid/setgid to 65534/12345 succeed; child-side faults are injected with scope 'all' between arming and DISARM "
+              "(scope 'children' when the caller issues the same call after the fork)")
+    ck.assume("discovered enumeration: the refusal list is read from un-injected traced runs per mode and flavour (every nr, every occurrence, "
+              "up to the first call that fails by itself); never refused and never counted as a failed step: close, exit, exit_group, write, wait4")
     ck.assume("descriptor leaks in the caller are C12's subject and not judged here; only the descriptor table seen by the exec'd program is")
     return ("seeded spawn configurations (0..50 args incl. empty/non-UTF-8/long, environment default|provided 1..50 incl. duplicates and "
             "entries without '=', cwd absolute/relative/non-UTF-8, uid/gid/pgroup on/off, stdio unset/Inherit/Null/MakePipe/RawFd per stream "
             "with a data round trip, 0..3 pre-exec closures) run by a std-linked probe (tiny-std without `start`) and a no-libc probe (with "
             "`start`) under the ptrace monitor; failures by real means (ENOENT/EACCES/ENOEXEC/ENOTDIR/ELOOP/ENAMETOOLONG programs, bad cwd, "
             "setgid after setuid, foreign pgroup, closed RawFd, failing closure) and injected at every parent-side (pipe2 k, open /dev/null k, "
-            "fork, sync-pipe read) and child-side (dup k, chdir, setuid, setgid, setpgid, execve) call x errno list; distinct = (flavour, "
+            "fork, sync-pipe read) and child-side (dup k, chdir, setuid, setgid, setpgid, execve) call x errno list; in addition a DISCOVERED "
+            "enumeration: every parent/stdio mode (plain, pipes, nulls, files, shared/own/crossed RawFd, full settings, each closed-0/1/2 "
+            "variant of the caller, real exec failure) is first run un-injected, the tracer's log gives every call the caller makes inside "
+            "Command::spawn and every call the forked child makes up to execve, and each (mode, side, call, occurrence) is then refused in turn "
+            "(never refused: close, exit, exit_group, write, wait4); distinct = (flavour, "
             "kind, stdio modes | env/arg size classes | cwd/uid/gid/pgroup/closures | failing step x errno) cells of judged cases")
 
 
